@@ -16,12 +16,13 @@ MA_KINDS = [0, 1, 3, 4, 5]   # sma ema smma wma hma
 
 CAT = {
     # name: (inputs, cfg(rng, hi) -> (ns, fs), defaults (ns, fs))
-    'Apo': ('n', lambda r, h: (list(two_sorted(r, h)), []), ([14, 30], [])),
+    # Apo / Ema: the smoothing constants are public fields (FastSmoothing, SlowSmoothing / Smoothing), default 2
+    'Apo': ('n', lambda r, h: (list(two_sorted(r, h)), r.choice([[], [2.0, 2.0], [3.0, 1.0], [1.5, 2.5]])), ([14, 30], [2.0, 2.0])),
     'Aroon': ('hl', lambda r, h: ([P(r, h)], []), ([25], [])),
     'Bop': ('ohlc', lambda r, h: ([], []), ([], [])),
     'Cci': ('hlc', lambda r, h: ([P(r, h)], []), ([20], [])),
     'Dema': ('n', lambda r, h: ([P(r, h), P(r, h)], []), ([20, 20], [])),
-    'Ema': ('n', lambda r, h: ([P(r, h)], []), ([20], [])),
+    'Ema': ('n', lambda r, h: ([P(r, h)], r.choice([[], [2.0], [1.0], [3.0], [0.5], [2.5]])), ([20], [2.0])),
     'Envelope': ('n', lambda r, h: ([r.choice([0, 1]), P(r, h)], [r.choice([0.0, 5.0, 20.0, 12.5])]), ([0, 20], [20.0])),
     'Hma': ('n', lambda r, h: ([P(r, h)], []), ([9], [])),
     'Kama': ('n', lambda r, h: ([P(r, h), P(r, 5), P(r, 30)], []), ([10, 2, 30], [])),
@@ -125,6 +126,14 @@ def gen_ohlcv(rng, n, regime=None):
             for i in range(a, min(n, a + ln)):
                 for f in 'ohlc':
                     s[f][i] = s['c'][a]
+        return s, regime
+    if regime == 'anyorder':
+        # no relation at all between the columns: the high may lie below the low or below the previous close (C01-C04 quantify
+        # over every finite series, not only over well-formed bars; C15 and the strategy checks never use this regime)
+        s, _ = gen_ohlcv(rng, n, 'walk')
+        base = s['c'][0] if n else 10.0
+        for f in 'ohl':
+            s[f] = [q(max(1 / 64.0, x + rng.uniform(-0.08, 0.08) * base)) for x in s['c']]
         return s, regime
     if regime == 'touch':
         # whole-number prices in a narrow band: closes land exactly on bands, extremes and earlier closes
@@ -232,5 +241,5 @@ def make_inputs(rng, name, n, regime=None):
         for k in kinds:
             streams.append([float(i + 1) for i in range(n)] if k == 'x' else vals)
         return streams, reg, None
-    s, reg = gen_ohlcv(rng, n, regime if regime in REGIMES else None)
+    s, reg = gen_ohlcv(rng, n, regime if regime in REGIMES + ['anyorder'] else None)
     return [s[k] for k in kinds], reg, s
